@@ -7,6 +7,7 @@ import (
 	"errors"
 	"fmt"
 	"sync"
+	"sync/atomic"
 	"time"
 
 	coreda "github.com/evstack/ev-node/core/da"
@@ -27,17 +28,37 @@ func (o SubmitOutcome) String() string {
 
 // RetrieveOutcome scripts one answer to a GetIDs(+Get) for a height.
 type RetrieveOutcome struct {
-	Kind  string // ok | notfound | future | listerr | chunkerr
-	Chunk int    // for chunkerr: index of the Get call (0-based) that fails
+	// Kind: ok | notfound | future | listerr | chunkerr | emptylist | nilresult.
+	// "emptylist" and "nilresult" are the two other ways in which a DA implementation says "this height holds
+	// nothing": the listing succeeds with an empty id list (core/da DummyDA) or with a nil result (local-da).
+	Kind  string
+	Chunk int // for chunkerr: index of the Get call (0-based) that fails
 	// ErrVariant selects the identity of the error returned for listerr / chunkerr (see RetrieveErr).
 	ErrVariant int
 }
 
-// RetrieveErrVariants is the number of error identities RetrieveErr knows.
+// RetrieveErrVariants is the number of transient error identities RetrieveErr knows.
 const RetrieveErrVariants = 7
+
+// RetrieveErrVariantsAll additionally counts the identities that only make sense for a chunk fetch (Get):
+// a listed id that is not retrievable (yet), reported with the DA interface's not-found / from-the-future
+// sentinels (variants RetrieveErrVariants .. RetrieveErrVariantsAll-1).
+const RetrieveErrVariantsAll = 11
 
 // RetrieveErr returns the v-th kind of transient retrieval error a DA client can surface.
 func RetrieveErr(v int, what string) error {
+	if v >= RetrieveErrVariants && v < RetrieveErrVariantsAll {
+		switch v {
+		case 7:
+			return fmt.Errorf("da double: %s: %w", what, coreda.ErrBlobNotFound)
+		case 8:
+			return fmt.Errorf("da double: %s: %w", what, coreda.ErrHeightFromFuture)
+		case 9:
+			return coreda.ErrBlobNotFound
+		default:
+			return errors.New("rpc error: " + what + ": " + coreda.ErrHeightFromFuture.Error())
+		}
+	}
 	switch v % RetrieveErrVariants {
 	case 1:
 		return fmt.Errorf("da double: %s: %w", what, context.DeadlineExceeded)
@@ -85,8 +106,15 @@ type DADouble struct {
 	MaxBlob     int
 	Delay       func(kind string)
 	futureSeen  map[uint64]int // how many times "future" was answered for a height
-	idleCh      chan uint64
-	nonce       uint64
+	// BlockRetrieve makes every GetIDs call hang until its context ends (a DA client that does not answer)
+	BlockRetrieve    atomic.Bool
+	retrieveInFlight atomic.Int64
+	idleCh           chan uint64
+	nonce            uint64
+	// EmptyAs is how a produced height without blobs answers a listing: "" / "notfound" = ErrBlobNotFound
+	// (default), "emptylist" = success with an empty id list, "nilresult" = (nil, nil).
+	EmptyAs   string
+	emptyAsAt map[uint64]string // per-height override of EmptyAs
 }
 
 var _ coreda.DA = (*DADouble)(nil)
@@ -128,6 +156,9 @@ func (d *DADouble) SubmitCalls() int {
 	return n
 }
 
+// RetrieveInFlight is the number of GetIDs calls currently hanging inside the double.
+func (d *DADouble) RetrieveInFlight() int64 { return d.retrieveInFlight.Load() }
+
 // ClearSubmitScript drops remaining scripted submit outcomes.
 func (d *DADouble) ClearSubmitScript() {
 	d.mu.Lock()
@@ -139,6 +170,23 @@ func (d *DADouble) ClearSubmitScript() {
 func (d *DADouble) ScriptRetrieve(h uint64, o ...RetrieveOutcome) {
 	d.mu.Lock()
 	d.retScr[h] = append(d.retScr[h], o...)
+	d.mu.Unlock()
+}
+
+// ClearRetrieveScript drops all remaining scripted retrieval outcomes (from here on the real contents are served).
+func (d *DADouble) ClearRetrieveScript() {
+	d.mu.Lock()
+	d.retScr = map[uint64][]RetrieveOutcome{}
+	d.mu.Unlock()
+}
+
+// SetEmptyAs overrides EmptyAs for one height.
+func (d *DADouble) SetEmptyAs(h uint64, kind string) {
+	d.mu.Lock()
+	if d.emptyAsAt == nil {
+		d.emptyAsAt = map[uint64]string{}
+	}
+	d.emptyAsAt[h] = kind
 	d.mu.Unlock()
 }
 
@@ -334,6 +382,13 @@ func (d *DADouble) SubmitWithOptions(ctx context.Context, blobs []coreda.Blob, g
 
 func (d *DADouble) GetIDs(ctx context.Context, height uint64, namespace []byte) (*coreda.GetIDsResult, error) {
 	d.delay("getids")
+	if d.BlockRetrieve.Load() {
+		// the DA client hangs: only the caller's context ends the call
+		d.retrieveInFlight.Add(1)
+		<-ctx.Done()
+		d.retrieveInFlight.Add(-1)
+		return nil, ctx.Err()
+	}
 	d.mu.Lock()
 	defer d.mu.Unlock()
 	call := DACall{Seq: len(d.calls), Kind: "getids", Height: height}
@@ -360,10 +415,23 @@ func (d *DADouble) GetIDs(ctx context.Context, height uint64, namespace []byte) 
 				d.retScr[height] = d.retScr[height][1:]
 			}
 			o.Kind = "notfound"
+			as := d.EmptyAs
+			if v, ok := d.emptyAsAt[height]; ok {
+				as = v
+			}
+			if as == "emptylist" || as == "nilresult" {
+				o.Kind = as
+			}
 		}
 	}
 	call.Outcome = o.Kind
 	switch o.Kind {
+	case "emptylist":
+		d.calls = append(d.calls, call)
+		return &coreda.GetIDsResult{IDs: []coreda.ID{}, Timestamp: time.Unix(int64(height), 0)}, nil
+	case "nilresult":
+		d.calls = append(d.calls, call)
+		return nil, nil
 	case "future":
 		call.Err = coreda.ErrHeightFromFuture.Error()
 		d.calls = append(d.calls, call)
